@@ -945,6 +945,28 @@ package tree
 //@   loop 1
 //@     invariant [only_internal_branches_so_far] forall k int :: {edges[k]} 0 <= k && k < len(edges) ==> edges[k] != nil && edges[k].right != nil && len(edges[k].right.neigh) != 1
 
+// TipEdges / tipEdgesRecur (properties C03, C04): only branches whose lower end is a tip are listed, earlier entries are kept
+//@ func (*tree.Tree).tipEdgesRecur
+//@   flag noframe
+//@   requires t != nil && edge != nil && edge.right != nil && edges != nil
+//@   ensures [the_listed_prefix_is_kept] len(*edges) >= old(len(*edges)) && (forall k int :: {(*edges)[k]} {old((*edges)[k])} 0 <= k && k < old(len(*edges)) ==> (*edges)[k] == old((*edges)[k]))
+//@   ensures [every_appended_branch_ends_at_a_tip] forall k int :: {(*edges)[k]} old(len(*edges)) <= k && k < len(*edges) ==> (*edges)[k] != nil && (*edges)[k].right != nil && len((*edges)[k].right.neigh) == 1
+//@   loop 1
+//@     invariant [the_listed_prefix_is_kept] len(*edges) >= old(len(*edges)) && (forall k int :: {(*edges)[k]} 0 <= k && k < old(len(*edges)) ==> (*edges)[k] == old((*edges)[k]))
+//@     invariant [every_appended_branch_ends_at_a_tip] forall k int :: {(*edges)[k]} old(len(*edges)) <= k && k < len(*edges) ==> (*edges)[k] != nil && (*edges)[k].right != nil && len((*edges)[k].right.neigh) == 1
+
+//@ func (*tree.Tree).TipEdges
+//@   flag noframe
+//@   requires t != nil
+//@   ensures [only_tip_branches] forall k int :: {result[k]} 0 <= k && k < len(result) ==> result[k] != nil && result[k].right != nil && len(result[k].right.neigh) == 1
+//@   loop 1
+//@     invariant [only_tip_branches_so_far] forall k int :: {edges[k]} 0 <= k && k < len(edges) ==> edges[k] != nil && edges[k].right != nil && len(edges[k].right.neigh) == 1
+
+// StarTree: a central node with nbtips tips on branches of length 1 (thin)
+//@ func tree.StarTree
+//@   flag treeop
+//@   ensures [a_tree_or_an_error] result1 == nil ==> result0 != nil && fresh(result0)
+
 //@ func (*tree.Tree).edgesRecur
 //@   flag noframe
 //@   requires t != nil && edge != nil && edges != nil
@@ -1145,16 +1167,39 @@ package tree
 //@   ensures [index_stays_well_formed] HMok(em.hash) && HMplaced(em.hash) && em.hash == old(em.hash)
 //@   ensures [every_value_is_still_a_count_record] forall kv *hashmap.KeyValue :: {kv.Value} allocated(kv) ==> itag(kv.Value) == typetag("*EdgeIndexInfo") && iref(kv.Value) != 0
 
+// StarTreeFromTree (property C09): a star with as many tips as the tree has tip branches; the i-th tip of the star takes
+// the name of the lower end and the length of the i-th tip branch of the tree; its indexes are rebuilt
 //@ func tree.StarTreeFromTree
 //@   flag treeop
+//@   flag countcalls
 //@   requires t != nil
+//@   call tree.StarTree [one_tip_per_tip_branch_of_the_tree] a0 == len(edges)
+//@   call (*tree.Node).SetName [i_th_star_tip_takes_the_name_under_the_i_th_tip_branch] a0 == te.right && a1 == edges[rangeindex + 1].right.name
+//@   call (*tree.Edge).SetLength [i_th_star_branch_takes_the_length_of_the_i_th_tip_branch] a0 == te && a1 == edges[rangeindex + 1].length
+//@   call (*tree.Tree).ReinitIndexes [the_star_is_indexed] a0 == star
 //@ func (*tree.Tree).AllTipNames
 //@   requires t != nil
 //@   allocates []string, []*Node
 //@   assigns nothing
+// AddBipartition (property C09): every listed branch is detached from n and re-created between the new node and its
+// far end, in the same direction, with the length, support and p-value it had; the new node is joined to n by a
+// branch carrying the given length and support, oriented away from n unless one of the moved branches pointed into n
 //@ func (*tree.Tree).AddBipartition
-//@   flag treeop
-//@   requires t != nil
+//@   flag noframe
+//@   flag lightcalls
+//@   requires t != nil && n != nil
+//@   ensures [a_group_of_one_or_of_all_but_one_branch_is_refused] len(edges) <= 1 || len(edges) >= old(len(n.br)) - 1 ==> result0 == nil && result1 != nil
+//@   call (*tree.Node).delNeighbor [the_node_and_the_far_end_forget_each_other] (a0 == other && a1 == n) || (a0 == n && a1 == other)
+//@   call (*tree.Tree).ConnectNodes@L1 [the_far_end_is_rejoined_to_the_new_node_in_the_direction_it_had] other == (dir ? e.right : e.left) && ((dir && a1 == n2 && a2 == other) || (!dir && a1 == other && a2 == n2)) && dir == (e.left == n)
+//@   call (*tree.Edge).SetLength@L1 [a_moved_branch_keeps_its_length] a1 == e.length
+//@   call (*tree.Edge).SetSupport@L1 [a_moved_branch_keeps_its_support] a1 == e.support
+//@   call (*tree.Edge).SetPValue@L1 [a_moved_branch_keeps_its_pvalue] a1 == e.pvalue
+//@   call (*tree.Tree).ConnectNodes@L0 [the_new_node_hangs_on_n_oriented_away_from_it_unless_a_moved_branch_pointed_into_it] (nbin == 0 && a1 == n && a2 == n2) || (nbin != 0 && a1 == n2 && a2 == n)
+//@   call (*tree.Edge).SetLength@L0 [the_new_branch_gets_the_given_length] a0 == e && a1 == length
+//@   call (*tree.Edge).SetSupport@L0 [the_new_branch_gets_the_given_support] a0 == e && a1 == support
+//@   loop 1
+//@     invariant [incoming_moved_branches_counted] nbin >= 0 && nbout >= 0 && n2 != nil
+//@     step [one_more_in_the_direction_of_the_moved_branch] next(nbin) + next(nbout) == nbin + nbout + 1 && (next(nbin) == nbin + 1) == (e.left != n)
 
 // ---------------------------------------------------------------------------
 // Consensus (property C09)
